@@ -16,9 +16,10 @@ Per case the driver
 -/
 import Pithos.Util.Proto
 import Pithos.Model.S3
+import Pithos.Model.S3Ext
 
 namespace Pithos.S3Driver
-open Pithos Pithos.Proto Pithos.S3
+open Pithos Pithos.Proto Pithos.S3 Pithos.S3Ext
 
 def kvOf (toks : List String) (k : String) : String :=
   match toks.find? (fun t => t.startsWith (k ++ "=")) with
@@ -285,12 +286,37 @@ If-Match arguments are already symbolic) and return the projections for property
 def projections (p : String) (q : Quirks) (ops : List Op) : List (Option String) :=
   ((S3.run q {} ops).2.zip ops).map fun (o, op) => project p op o
 
+/-- An op line of the s3h harness including the server-side part copy
+`op uppc <sb> <sk> <db> <dk> <u> <n> range=<a>-<b>|~` (b exclusive). -/
+def parseXOp (c : Ctx) (line : String) : Option XOp :=
+  let t := tokens line
+  match t with
+  | "op" :: "uppc" :: sb :: sk :: db :: dk :: u :: n :: _ =>
+    let r := kvOf t "range"
+    let range : Option (Nat × Nat) := if r == "~" then none else
+      match r.splitOn "-" with
+      | [a, b] => some (a.toNat!, b.toNat!)
+      | _ => none
+    some (.partCopy sb sk none db dk u.toNat! n.toNat! range)
+  | _ => (parseOp c line).map .base
+
+def xproject (p : String) : XOp → XOut → Option String
+  | .base op, .base o => project p op o
+  | _, _ => none
+
+def xprojections (p : String) (q : Quirks) (ops : List XOp) : List (Option String) :=
+  ((xrun q {} ops).2.zip ops).map fun (o, op) => xproject p op o
+
 /-- C13 judge data: for every read of an explicit, non-null version id the implementation's
 (content, size, etag, lm) must equal its first observation. -/
-def c13Key (op : Op) : Option (String × String × Nat) :=
+def nullSentinel : Nat := 4000000000
+
+def c13Key (op : XOp) : Option (String × String × Nat) :=
   match op with
-  | .get b k (some (some n)) => some (b, k, n)
-  | .head b k (some (some n)) => some (b, k, n)
+  | .base (.get b k (some (some n))) => some (b, k, n)
+  | .base (.head b k (some (some n))) => some (b, k, n)
+  | .base (.get b k (some none)) => some (b, k, nullSentinel)
+  | .base (.head b k (some none)) => some (b, k, nullSentinel)
   | _ => none
 
 structure CaseResult where
@@ -312,24 +338,25 @@ def judgeCase (prop : String) (_k : Nat) (lines : List String) : Verdict := Id.r
   let mut ctx : Ctx := {}
   let mut st : State := {}
   let mut div : List String := []
-  let mut ops : List Op := []
-  let mut implOuts : List Out := []
+  let mut ops : List XOp := []
+  let mut implOuts : List XOut := []
   let mut idx := 0
   let mut nOk := 0
   let mut nErr := 0
   let mut stats : List (String × Nat) := []
   for (o, r) in pairs do
-    match parseOp ctx o with
+    match parseXOp ctx o with
     | none => div := div ++ [s!"op{idx}:unparsable:{o}"]
     | some op =>
-      let (st', out) := step Quirks.code st op
+      let (st', xout) := xstep Quirks.code st op
+      let out : Out := match xout with | .base o => o | .many _ => .unit
       let (ctx', ms) := compareOut ctx out r
       if !ms.isEmpty && div.length < 6 then
         div := div ++ [s!"op{idx}[{(tokens o).getD 1 "?"}]:" ++ String.intercalate ";" ms]
       ctx := ctx'
       st := st'
       ops := ops ++ [op]
-      implOuts := implOuts ++ [implOut out r]
+      implOuts := implOuts ++ [XOut.base (implOut out r)]
       if r.startsWith "res ok" then nOk := nOk + 1 else nErr := nErr + 1
       stats := addStats stats [("op_" ++ (tokens o).getD 1 "?", 1)]
       if r.startsWith "res err" then stats := addStats stats [("err_" ++ (tokens r).getD 2 "?", 1)]
@@ -340,7 +367,30 @@ def judgeCase (prop : String) (_k : Nat) (lines : List String) : Verdict := Id.r
     -- first observation of each explicit version id vs every later one
     let mut seen : List ((String × String × Nat) × String) := []
     let mut i := 0
+    -- the null version (sentinel id `nullSentinel`) is judged too, but it may legitimately be
+    -- replaced: by writes to its key while the bucket is not versioning-enabled, by its explicit
+    -- delete, and it disappears with its bucket. The versioning state is read off the trace.
+    let mut vers : List (String × Versioning) := []
     for (op, (_, r)) in ops.zip pairs do
+      let ok := r.startsWith "res ok"
+      let enabledOf (b : String) : Bool := (vers.find? (·.1 == b)).map (·.2) == some Versioning.enabled
+      match op with
+      | .base (.setVer b v) => if ok then vers := (b, v) :: vers.filter (·.1 != b)
+      | .base (.rmb b) => if ok then
+          vers := vers.filter (·.1 != b)
+          seen := seen.filter (fun e => e.1.1 != b)
+      | _ => pure ()
+      let replacesNull : Option (String × String) := match op with
+        | .base (.put b k ..) | .base (.append b k ..) | .base (.complete b k ..) => if enabledOf b then none else some (b, k)
+        | .base (.copy _ _ _ db dk ..) => if enabledOf db then none else some (db, dk)
+        | .base (.del b k vid _) => (match vid with
+            | some none => some (b, k)
+            | none => if enabledOf b then none else some (b, k)
+            | _ => none)
+        | _ => none
+      match replacesNull with
+      | some (b, k) => if ok then seen := seen.filter (fun e => !(e.1.1 == b && e.1.2.1 == k && e.1.2.2 == nullSentinel))
+      | none => pure ()
       match c13Key op with
       | some key =>
         if r.startsWith "res ok" then
@@ -367,7 +417,8 @@ def judgeCase (prop : String) (_k : Nat) (lines : List String) : Verdict := Id.r
       | none => pure ()
       i := i + 1
   else
-    let implProj := (implOuts.zip ops).map fun (o, op) => project prop op o
+    let implProj := (implOuts.zip ops).map fun (o, op) => xproject prop op o
+    let projections := xprojections
     -- the reference for property P switches off exactly the deviations P is about; deviations
     -- that belong to another property (e.g. next-latest promotion, judged by C01/C02) follow the code
     let cq := Quirks.code
@@ -393,7 +444,8 @@ def judgeCase (prop : String) (_k : Nat) (lines : List String) : Verdict := Id.r
       | none =>
         vio := vio ++ [(s!"{prop}.unexplained", s!"{where_}:implementation-differs-from-reference-S3-model")]
   let writes := (ops.filter fun op => match op with
-    | .put .. | .copy .. | .append .. | .complete .. | .del .. => true | _ => false).length
+    | .base (.put ..) | .base (.copy ..) | .base (.append ..) | .base (.complete ..) | .base (.del ..) => true
+    | _ => false).length
   return {
     diverge := div, violations := vio,
     nontrivial := nOk ≥ 5 && writes ≥ 2,
